@@ -30,7 +30,7 @@ RULE = (
     "order (task t may complete at position j iff t < j+W; other pools in submission order - sound because every "
     "pool's output is part of the compared observation, see DESIGN.md E3a). Pools with <= 5 tasks: stateless "
     "enumeration of all orders; larger: explicit-state search, state = (consumed task set, hash of the consumer "
-    "frame's picklable locals). Plus: all pools jointly with <= 2 deviations from submission order. Plus (boundary): pickle round trips of Configuration / BinningConfig / Binning / ScalesConfig for method {linear, comoving, logspace, custom} x closed x cosmology {Planck15, WMAP9, instance, custom} x unit {deg, kpc} mean the same afterwards. Before the runs a caller edits, in place, every array obtained from Patch.redshifts / Patch.weights (results must not move). Real-pool sequences also with relative cache paths and a chdir to a directory with other catalogs in between, and with physical scales under two unnamed cosmologies of one class. Oracle: "
+    "frame's picklable locals). Plus: all pools jointly with <= 2 deviations from submission order; a timed wait on the pool iterator (next(timeout)) may time out (<= 2 per pool) as a further deviation; catalogs of 1, 9 and 12 patches (two-digit ids). Plus (boundary): pickle round trips of Configuration / BinningConfig / Binning / ScalesConfig for method {linear, comoving, logspace, custom} x closed x cosmology {Planck15, WMAP9, instance, custom} x unit {deg, kpc} mean the same afterwards. Before the runs a caller edits, in place, every array obtained from Patch.redshifts / Patch.weights (results must not move). Real-pool sequences also with relative cache paths and a chdir to a directory with other catalogs in between, and with physical scales under two unnamed cosmologies of one class. Oracle: "
     "observation bit-identical to the sequential (W=1, no pool) run. Inputs have pairwise different per-patch "
     "contents (asserted). Non-trivial: a pool with >= 2 tasks and an order differing from submission order ran."
 )
